@@ -55,6 +55,8 @@ func fileContent(name string, n int) []byte {
 	return b
 }
 
+func longName(n int) string { return "long-" + strings.Repeat("n", n-9) + ".txt" }
+
 func smallN() int {
 	if ev.Thorough() {
 		return 12
@@ -105,6 +107,10 @@ func getWorld(t testing.TB) *sandbox {
 	add("/e/x.txt", 4)
 	add("/static/s5", 5)
 	add("/static/s0", 0)
+	// names close to NAME_MAX: with the ".hertz.gz" suffix of the compressed copy they exceed it
+	add("/"+longName(250), 300)
+	add("/"+longName(246), 5000)
+	add("/d/"+longName(255), 40)
 	w.srv = sconn.NewServer(func(h *server.Hertz) {
 		strip := app.NewPathSlashesStripper(1)
 		h.StaticFS("/fs", &app.FS{Root: w.root, AcceptByteRange: true, PathRewrite: strip, IndexNames: []string{"index.html"}})
@@ -560,7 +566,8 @@ func TestC08Random(t *testing.T) {
 	rec := ev.New("random")
 	w := getWorld(t)
 	paths := []string{"/f0", "/f1", "/f2", "/f5", "/f12", "/small-1", "/small", "/small+1", "/big", "/d", "/d/", "/d/index.html", "/d/other.txt", "/e", "/e/", "/e/x.txt", "/missing", "/f1/", "/f1/x", "/", "",
-		"/../secret.txt", "/%2e%2e/secret.txt", "/d/../../secret.txt", "/..%2fsecret.txt", "/d/%2e%2e/%2e%2e/secret.txt", "/.", "/./f1", "//f1", "/d//other.txt", "/f1%00", "/static/s5", "/static/s0"}
+		"/../secret.txt", "/%2e%2e/secret.txt", "/d/../../secret.txt", "/..%2fsecret.txt", "/d/%2e%2e/%2e%2e/secret.txt", "/.", "/./f1", "//f1", "/d//other.txt", "/f1%00", "/static/s5", "/static/s0",
+		"/" + longName(250), "/" + longName(246), "/d/" + longName(255), "/" + longName(251)}
 	rapid.Check(t, func(t *rapid.T) {
 		k := rapid.IntRange(1, 5).Draw(t, "nReqs")
 		var reqs []*Request
